@@ -1,6 +1,7 @@
 package main
 
 import (
+	"go/types"
 	"encoding/json"
 	"flag"
 	"fmt"
@@ -219,7 +220,8 @@ func (e *Engine) VerifyProps(props []string, only map[string]bool, opts runOpts,
 		rep.Obligations = append(rep.Obligations, u.obls...)
 		rep.Errors = append(rep.Errors, u.errs...)
 	}
-	// lemmas
+	// axioms and lemmas
+	e.loadAxioms(rep)
 	e.lemmaObligations(rep, want)
 	// solve
 	prelude := e.Prelude()
@@ -397,4 +399,31 @@ func stripQuantified(q string) string {
 		b.WriteString("\n")
 	}
 	return b.String()
+}
+
+func (e *Engine) pkgByPath(path string) *types.Package {
+	for _, p := range e.prog.AllPackages() {
+		if p.Pkg.Path() == path {
+			return p.Pkg
+		}
+	}
+	return nil
+}
+
+func (e *Engine) loadAxioms(rep *Report) {
+	if e.axiomsLoaded {
+		return
+	}
+	e.axiomsLoaded = true
+	u := &Unit{eng: e, name: "axiom", oblIndex: map[string]int{}, abstr: map[string]bool{}, trusted: map[string]bool{}, inlined: map[string]bool{}, contract: &FuncContract{}}
+	for _, a := range e.cs.Axioms {
+		st := &State{heap: map[string]Term{}, alloc: "A0"}
+		env := &SpecEnv{vars: map[string]Val{}, pkg: e.pkgByPath(a.Pkg)}
+		t, err := u.evalBool(st, env, a.Expr)
+		if err != nil {
+			rep.Errors = append(rep.Errors, fmt.Sprintf("%s: axiom %s: %v", a.Where, a.Label, err))
+			continue
+		}
+		e.gaxioms = append(e.gaxioms, "(assert "+t+") ; axiom "+a.Label)
+	}
 }
